@@ -1,4 +1,4 @@
-From Tetl Require Import Lib.Base C13.Float C13.Model C13.Spec C13.Samples C13.ModelMove C18.Spec.
+From Tetl Require Import Lib.Base C13.Float C13.Model C13.Spec C13.Samples C13.ModelMove C13.ProofsAt C18.Spec.
 Require Extraction.
 Require Import ExtrOcamlBasic.
 Extraction Language OCaml.
@@ -9,4 +9,5 @@ Extraction "C13_model.ml" wire_anchor
   rt_popcount rt_byteswap rt_add_sat cstr rt_strlen rt_strcmp rt_strncmp rt_strchr rt_memchr
   rt_signbit rt_copysign rt_isnan rt_isinf rt_floor rt_ceil rt_trunc rt_round rt_rint rt_lrint rt_fma rt_fmod rt_remainder
   to_chars10 sv_find work istr civil ctype_all sv_ops civil_back algo2
-  ct_memmove ct_memmove2 memmove_s memcpy_s.
+  ct_memmove ct_memmove2 memmove_s memcpy_s
+  ct_memchr_at.
